@@ -16,7 +16,8 @@ import tempfile
 from harness import core
 
 LEVEL = "model_checking"
-FIELD = {"list": "x", "dict": "x", "set": "x", "object": "x", "array": "x", "array-shape": "x", "file-any": "f", "file-copy": "f"}
+FIELD = {"list": "x", "dict": "x", "set": "x", "object": "x", "array": "x", "array-shape": "x", "file-any": "f", "file-copy": "f",
+         "tuple-list": "x", "tuple-dict": "x", "tuple-array": "x", "dict-list": "x"}
 
 
 def run_case(c):
